@@ -2174,3 +2174,13 @@ M("C04-type-declaration-takes-the-wider-access", "C04", F_SC,
   expect="R04.13|add_declaration|")
 M("C04-benign-member-class-access-condition-swapped", "C04", F_SC,
   "      type_decl->_type->_vis > decl->_vis) {", "      decl->_vis < type_decl->_type->_vis) {", benign=True)
+
+# ---- R10.11 (S9-C10: bases share one list of virtual functions)
+M("C10-bases-share-the-virtual-function-list", "C10", F_ST,
+  "    VFunctions vf;\n    CPPStructType *base = (*di)._base->as_struct_type();\n    if (base != nullptr) {\n      base->get_virtual_funcs(vf);\n      funcs.splice(funcs.end(), vf);\n    }\n",
+  "    CPPStructType *base = (*di)._base->as_struct_type();\n    if (base != nullptr) {\n      base->get_virtual_funcs(funcs);\n    }\n",
+  expect="R10.11|get_virtual_funcs|")
+M("C10-base-list-declared-outside-the-loop", "C10", F_ST,
+  "  for (di = _derivation.begin(); di != _derivation.end(); ++di) {\n    VFunctions vf;\n    CPPStructType *base = (*di)._base->as_struct_type();\n    if (base != nullptr) {\n      base->get_virtual_funcs(vf);",
+  "  VFunctions vf;\n  for (di = _derivation.begin(); di != _derivation.end(); ++di) {\n    CPPStructType *base = (*di)._base->as_struct_type();\n    if (base != nullptr) {\n      base->get_virtual_funcs(vf);",
+  expect="R10.11|get_virtual_funcs|")
